@@ -19,7 +19,62 @@ enum POp {
 
 pub const SITES: [Site; 6] = [Site::PingWritePre, Site::PingWritePost, Site::PingClosePre, Site::PingDrainPre, Site::PingDrainPost, Site::PingCbPost];
 
+/// A ping source kept in a Dispatcher outlives its first loop and is registered with a second one: pings must be
+/// delivered there exactly as in the first (no state of the earlier registration may stand in the way)
+fn run_second_loop(c: &SchedCase) -> ExecOutcome {
+    let mut o = ExecOutcome::default();
+    o.nontrivial = true;
+    o.cov("source-moved-to-a-second-loop");
+    let (ping, src) = make_ping().expect("ping");
+    let disp = calloop::Dispatcher::new(src, |_, _, n: &mut u64| *n += 1);
+    let mut n = 0u64;
+    {
+        let mut el1: EventLoop<u64> = EventLoop::try_new().expect("loop");
+        let tok = el1.handle().register_dispatcher(disp.clone()).expect("register in the first loop");
+        ping.ping();
+        let _ = el1.dispatch(Some(Duration::from_millis(200)), &mut n);
+        if n != 1 {
+            o.alarm("no_lost", "ping-without-later-callback", format!("first loop: one ping, {} callbacks", n));
+        }
+        match c.case % 3 {
+            0 => {}
+            1 => {
+                let _ = el1.handle().disable(&tok);
+            }
+            _ => el1.handle().remove(tok),
+        }
+    }
+    let mut el2: EventLoop<u64> = EventLoop::try_new().expect("loop");
+    let h2 = el2.handle();
+    if let Err(e) = h2.register_dispatcher(disp.clone()) {
+        o.alarm("no_lost", "source-rejected-by-a-second-loop", format!("registering the ping source with a second loop failed: {}", e));
+        return o;
+    }
+    let p2 = ping.clone();
+    let t = std::thread::spawn(move || p2.ping());
+    let _ = t.join();
+    let before = n;
+    let t0 = Instant::now();
+    let _ = el2.dispatch(Some(Duration::from_millis(300)), &mut n);
+    if n != before + 1 {
+        o.alarm("no_lost", "ping-without-later-callback", format!("second loop: the ping had returned, a {:?} dispatch ran {} callbacks", t0.elapsed(), n - before));
+    }
+    // close: the last handle goes, the source removes itself
+    drop(ping);
+    for _ in 0..3 {
+        let _ = el2.dispatch(Some(Duration::from_millis(20)), &mut n);
+    }
+    let occupied = h2.verif_stats().map(|s| s.occupied);
+    if occupied != Some(0) {
+        o.alarm("close", "source-not-removed-after-last-handle-drop", format!("second loop: all Ping handles are gone but {:?} slots are occupied", occupied));
+    }
+    o
+}
+
 pub fn run(c: &SchedCase) -> ExecOutcome {
+    if c.case % 16 == 7 && !cfg!(miri) {
+        return run_second_loop(c);
+    }
     let mut o = ExecOutcome::default();
     let mut rng = Rng::derive(c.seed, c.case, 3);
     let mut el: EventLoop<u64> = EventLoop::try_new().expect("loop");
